@@ -76,6 +76,14 @@ Theorem C03_parse_fuel_stable : forall cfg f ids ts r,
   parse_fuel cfg f ids ts = r -> r <> POOF -> parse cfg ids ts = r.
 Proof. exact parse_fuel_stable. Qed.
 
+(* operator position needs an operator TOKEN (any configuration, any token list): a string literal or quoted
+   identifier whose text spells an operator is never consumed as that operator; with C03_parse_sound such an
+   input in operator position is rejected (flatten writes operators only as tOperate tokens) *)
+Theorem C03_only_operator_tokens : forall cfg f k o a u ids ts, typ_is (peek ts) tOperate = false ->
+  parse_op_loop cfg (S f) k o a u ids ts = POk (a, u, ts) /\
+  parse_unary cfg (S f) ids ts = parse_nonop cfg f ids ts.
+Proof. exact only_operator_tokens. Qed.
+
 (* non-vacuity: the table  -  <  <=  <<  (ascending), prefix operators  -  (also binary, level 0) and  !  (pure).
    (a - b) << c  needs its parentheses,  a << b - c  needs none,  a - (b - c)  needs them on the right (left
    associativity),  ! (- a)  needs them (a pure prefix operator takes a postfix expression), and
@@ -109,6 +117,14 @@ Example C03_nonvacuous_parse :
   = POk (AOp [60; 60]%N 3 (AIdent [97%N] false) (AUn [45%N] (AOp [60; 61]%N 2 (AIdent [98%N] false) (AIdent [99%N] false)))).
 Proof. vm_compute. repeat split. Qed.
 
+(* a "<" b  and  a '<=' b  (string literal / quoted identifier spelling a binary operator) are rejected,
+   a < "<"  is accepted with the string as operand *)
+Example C03_nonvacuous_disguised :
+  parse ex_cfg ex_ids [k_ident [97%N]; k_str [60%N]; k_ident [98%N]] = PErr /\
+  parse ex_cfg ex_ids [k_ident [97%N]; k_ident [60; 61]%N; k_ident [98%N]] = PErr /\
+  parse ex_cfg ex_ids [k_ident [97%N]; k_op [60%N]; k_str [60%N]] = POk (AOp [60%N] 1 (AIdent [97%N] false) (AConst [60%N])).
+Proof. vm_compute. repeat split. Qed.
+
 Print Assumptions C03_parse_complete.
 Print Assumptions C03_parse_sound.
 Print Assumptions C03_renders_unique.
@@ -120,3 +136,4 @@ Print Assumptions C03_reject_unbalanced.
 Print Assumptions C03_parse_no_panic.
 Print Assumptions C03_parse_total.
 Print Assumptions C03_parse_fuel_stable.
+Print Assumptions C03_only_operator_tokens.
